@@ -6,6 +6,7 @@ from .. import replay as rp
 from .. import oracles as O
 from .c04 import raw
 
+from ..validate import validation_group
 BOUNDS = {'quick': {'identifier_list_len': 1, 'components': 'full u64 <= MAX_SAFE_INTEGER'}, 'thorough': {'identifier_list_len': 3, 'components': 'full u64 <= MAX_SAFE_INTEGER'}}
 OUTSIDE = ['VersionDiff Display strings (core::fmt)', 'identifier lists longer than the bound']
 ASSUMPTIONS = ['O-diff is a transcription of node-semver 7.5.4 functions/diff.js (the version pinned by the repository\'s pnpm-lock.yaml)',
@@ -14,7 +15,7 @@ ASSUMPTIONS = ['O-diff is a transcription of node-semver 7.5.4 functions/diff.js
 
 def groups(tier):
     L = 1 if tier == 'quick' else 3
-    return [{'name': 'diff-L%d' % L, 'fn': diff_group, 'args': {'L': L}}]
+    return [{'name': 'diff-L%d' % L, 'fn': diff_group, 'args': {'L': L}}] + [validation_group(('diff',), tier)]
 
 
 def judge_diff(case):
